@@ -848,3 +848,158 @@ Lemma entries_empty_run : forall s fuel fi,
              = (Ok [], s', [(sel_info_req, RBytes [0; 0x51; 0; 0; 0; 0; 0; 0; 0; 0; 0; 0; 0; 0; 0x0a])])
           /\ sd_log s' = [].
 Proof. intros s fuel fi. rewrite exec_eq. exact (entries_empty s fuel fi). Qed.
+
+(* ---------------------------------------------------------------------------
+   the thin operations against the device (no concurrent change during the call) *)
+Lemma exec_sleep {A S} (dev : device S) ms (k : prog A) s : exec (Sleep ms k) dev s = exec k dev s.
+Proof. reflexivity. Qed.
+
+Lemma count_exact : forall s, somes (sd_plan s) = [] -> N.of_nat (length (sd_log s)) < 65536 ->
+  exists s' t, run get_sel_entries_count sel_dev s [] = (Ok (N.of_nat (length (sd_log s))), s', t)
+    /\ length t = 1%nat /\ quiet s s'.
+Proof.
+  intros s Hpl H64. destruct (sel_dev_quiet s sel_info_req Hpl) as [Hd Hq].
+  rewrite handle_info in Hd.
+  pose proof (exec_send_msg sel_dev _ dec_sel_info _ _ _ Hd) as He.
+  assert (Hl : sd_log (adversary s) = sd_log s) by (destruct Hq as (E&_); exact E).
+  rewrite Hl in He. rewrite dec_sel_info_ok in He by exact H64.
+  rewrite exec_eq. unfold get_sel_entries_count. rewrite He. eexists _, _. split; [reflexivity|]. split; [reflexivity | exact Hq].
+Qed.
+
+Lemma reserve_exact : forall s, somes (sd_plan s) = [] ->
+  let R := sd_resv s mod 65535 + 1 in
+  exists s', run get_sel_reservation_id sel_dev s [] = (Ok R, s', [(reserve_req, RBytes (0 :: le_bytes 2 R))])
+    /\ 1 <= R < 65536 /\ sd_valid s' = true /\ sd_resv s' = R
+    /\ sd_log s' = sd_log s /\ sd_deleted s' = sd_deleted s /\ sd_limit s' = sd_limit s.
+Proof.
+  intros s Hpl R. destruct (sel_dev_quiet s reserve_req Hpl) as [Hd Hq].
+  rewrite handle_reserve in Hd. destruct Hq as (Q1&Q2&Q3&Q4&Q5&Q6).
+  rewrite Q3 in Hd. fold R in Hd.
+  pose proof (exec_send_msg sel_dev _ dec_id16 _ _ _ Hd) as He.
+  assert (HR : 1 <= R < 65536) by (subst R; lia).
+  rewrite dec_id16_ok in He by lia.
+  rewrite exec_eq. unfold get_sel_reservation_id. rewrite He.
+  eexists. split; [reflexivity|]. cbn. auto 10.
+Qed.
+
+Lemma delete_exact : forall s rid resv rc nx,
+  somes (sd_plan s) = [] -> sd_valid s = true -> sd_resv s = resv -> resv < 65536 -> rid < 65536 ->
+  lookup (sd_log s) rid = Some (rc, nx) -> rec_id rc < 65536 ->
+  exists s', run (delete_sel_entry rid resv) sel_dev s []
+             = (Ok (rec_id rc), s', [(delete_req resv rid, RBytes (0 :: le_bytes 2 (rec_id rc)))])
+    /\ sd_log s' = remove_rec (sd_log s) rid /\ sd_deleted s' = sd_deleted s ++ [rc]
+    /\ sd_valid s' = false.
+Proof.
+  intros s rid resv rc nx Hpl Hv Hr H1 H2 Hl Hid.
+  destruct (sel_dev_quiet s (delete_req resv rid) Hpl) as [Hd Hq].
+  destruct Hq as (Q1&Q2&Q3&Q4&Q5&Q6).
+  rewrite (handle_delete (adversary s) resv rid rc nx) in Hd; try congruence; try assumption.
+  pose proof (exec_send_msg sel_dev _ dec_id16 _ _ _ Hd) as He.
+  rewrite dec_id16_ok in He by exact Hid.
+  rewrite exec_eq. unfold delete_sel_entry. rewrite He.
+  eexists. split; [reflexivity|]. cbn. rewrite Q1, Q5. auto.
+Qed.
+
+(* without the current reservation nothing is deleted *)
+Lemma delete_refused : forall s rid resv,
+  somes (sd_plan s) = [] -> resv < 65536 -> rid < 65536 ->
+  (sd_valid s = false \/ resv <> sd_resv s) ->
+  exists s', run (delete_sel_entry rid resv) sel_dev s []
+             = (Err (CCError 0xc5), s', [(delete_req resv rid, RBytes [0xc5])])
+    /\ quiet s s'.
+Proof.
+  intros s rid resv Hpl H1 H2 Hbad.
+  destruct (sel_dev_quiet s (delete_req resv rid) Hpl) as [Hd Hq].
+  assert (Hh : sel_handle (adversary s) (delete_req resv rid) = (adversary s, RBytes [0xc5])).
+  { destruct Hq as (Q1&Q2&Q3&Q4&Q5&Q6).
+    unfold sel_handle, delete_req. cbn [q_netfn q_cmd q_lun q_data le_bytes app].
+    cbn [NETFN_STORAGE CMD_SEL_INFO CMD_RESERVE_SEL CMD_GET_SEL_ENTRY CMD_DELETE_SEL_ENTRY N.eqb Pos.eqb andb negb].
+    replace (resv mod 256 + 256 * (resv / 256 mod 256)) with resv by lia.
+    unfold resv_ok. rewrite Q4, Q3.
+    destruct Hbad as [Hv|Hne]; [rewrite Hv; reflexivity|].
+    destruct (N.eqb_spec resv (sd_resv s)); [contradiction|]. rewrite andb_false_r. reflexivity. }
+  rewrite Hh in Hd.
+  pose proof (exec_send_msg sel_dev _ dec_id16 _ _ _ Hd) as He.
+  rewrite exec_eq. unfold delete_sel_entry. rewrite He. eexists. split; [reflexivity | exact Hq].
+Qed.
+
+Lemma get_entry_exact : forall s rid resv rc nx,
+  somes (sd_plan s) = [] -> sd_valid s = true -> sd_resv s = resv -> 1 <= resv -> resv < 65536 ->
+  rid < 65536 -> lookup (sd_log s) rid = Some (rc, nx) -> nx < 65536 -> rec_ok rc ->
+  limit_ok (sd_limit s) ->
+  exists s' t, run (get_sel_entry 40 rid resv) sel_dev s [] = (Ok (entry_of rc, nx), s', t)
+    /\ se_data (entry_of rc) = rc /\ got t = rc /\ quiet s s'.
+Proof.
+  intros s rid resv rc nx Hpl Hv Hr H1 H2 H3 Hl Hnx Hrok Hlim.
+  destruct (entry_of_ok rc Hrok) as [Hdec Hdat].
+  destruct (get_sel_entry_spec resv rid nx rc (entry_of rc) H1 H2 H3 Hnx (proj1 Hrok) Hdec 40%nat s ltac:(lia))
+    as (out & s' & t & He & _ & Hcase).
+  { repeat split; assumption. }
+  destruct Hcase as [(-> & Hq & Hg)|[_ [e Hc]]].
+  - rewrite exec_eq, He. eexists _, _. split; [reflexivity|]. auto.
+  - destruct Hc as (_&_&_&_&Hc). rewrite Hpl in Hc. discriminate.
+Qed.
+
+(* clear_sel: the whole log is erased, nothing else changes; Reserve, Clear 0xAA, Clear 0x00 *)
+Local Opaque N.mul N.add N.modulo N.div N.ltb N.leb.
+Lemma handle_clear s resv cmd :
+  sd_valid s = true -> sd_resv s = resv -> resv < 65536 -> (cmd = 0xaa \/ cmd = 0) ->
+  sel_handle s (clear_req resv cmd) =
+  (if cmd =? 0xaa then mkSelDev [] (sd_limit s) (sd_resv s) true (sd_plan s) (sd_deleted s) else s,
+   RBytes [0; 1]).
+Proof.
+  intros Hv Hr H1 Hc.
+  unfold sel_handle, clear_req. cbn [q_netfn q_cmd q_lun q_data le_bytes app].
+  cbn [NETFN_STORAGE CMD_SEL_INFO CMD_RESERVE_SEL CMD_GET_SEL_ENTRY CMD_DELETE_SEL_ENTRY CMD_CLEAR_SEL N.eqb Pos.eqb andb negb].
+  replace (resv mod 256 + 256 * (resv / 256 mod 256)) with resv by lia.
+  unfold resv_ok. rewrite Hv, Hr, N.eqb_refl. cbn [andb negb].
+  destruct Hc as [-> | ->]; reflexivity.
+Qed.
+Local Transparent N.mul N.add N.modulo N.div N.ltb N.leb.
+
+Lemma clear_sel_exact : forall s retry, somes (sd_plan s) = [] -> (2 <= retry)%nat ->
+  exists s' t, run (clear_sel retry) sel_dev s [] = (Ok tt, s', t)
+    /\ sd_log s' = [] /\ sd_deleted s' = sd_deleted s /\ sd_limit s' = sd_limit s
+    /\ exists R, t = [(reserve_req, RBytes (0 :: le_bytes 2 R)); (clear_req R 0xaa, RBytes [0; 1]);
+                      (clear_req R 0, RBytes [0; 1])].
+Proof.
+  intros s retry Hpl Hretry.
+  destruct retry as [|[|n]]; try lia. cbn [pred].
+  destruct (reserve_exact s Hpl) as (s1 & He1 & HR & Hv1 & Hr1 & Hl1 & Hd1 & Hlim1).
+  set (R := sd_resv s mod 65535 + 1) in *.
+  rewrite exec_eq in He1.
+  (* the plan stays quiet *)
+  assert (Hpl1 : somes (sd_plan s1) = []).
+  { unfold exec, get_sel_reservation_id, send_msg in He1. cbn [run] in He1.
+    destruct (sel_dev_quiet s reserve_req Hpl) as [Hd Hq]. rewrite Hd, handle_reserve in He1.
+    cbn in He1. injection He1 as _ <- . cbn. destruct Hq as (_&_&_&_&_&E). congruence. }
+  (* initiate erase *)
+  destruct (sel_dev_quiet s1 (clear_req R 0xaa) Hpl1) as [Hd2 Hq2].
+  destruct Hq2 as (A1&A2&A3&A4&A5&A6).
+  rewrite (handle_clear (adversary s1) R 0xaa) in Hd2 by (try congruence; try lia; auto).
+  change (0xaa =? 0xaa) with true in Hd2. cbn match in Hd2.
+  set (s2 := mkSelDev [] (sd_limit (adversary s1)) (sd_resv (adversary s1)) true (sd_plan (adversary s1))
+                      (sd_deleted (adversary s1))) in *.
+  assert (Hpl2 : somes (sd_plan s2) = []) by (subst s2; cbn; congruence).
+  assert (He2 : exec (clear_repository (S n) 0xaa R) sel_dev s1 = (Ok R, s2, [(clear_req R 0xaa, RBytes [0; 1])])).
+  { cbn [clear_repository]. rewrite exec_send, Hd2. reflexivity. }
+  (* poll *)
+  destruct (sel_dev_quiet s2 (clear_req R 0) Hpl2) as [Hd3 Hq3].
+  destruct Hq3 as (B1&B2&B3&B4&B5&B6).
+  rewrite (handle_clear (adversary s2) R 0) in Hd3
+    by (try (subst s2; cbn in *; congruence); try lia; auto).
+  change (0 =? 0xaa) with false in Hd3. cbn match in Hd3.
+  assert (He3 : exec (clear_repository (S n) 0 R) sel_dev s2 = (Ok R, adversary s2, [(clear_req R 0, RBytes [0; 1])])).
+  { cbn [clear_repository]. rewrite exec_send, Hd3. reflexivity. }
+  exists (adversary s2), [(reserve_req, RBytes (0 :: le_bytes 2 R)); (clear_req R 0xaa, RBytes [0; 1]);
+                          (clear_req R 0, RBytes [0; 1])].
+  split.
+  - rewrite exec_eq. unfold clear_sel.
+    erewrite exec_bind_ok; [| exact He1 |].
+    2:{ erewrite exec_bind_ok; [| exact He2 |].
+        2:{ rewrite exec_sleep. erewrite exec_bind_ok; [| exact He3 | reflexivity]. reflexivity. }
+        reflexivity. }
+    reflexivity.
+  - split; [rewrite B1; reflexivity|]. split; [rewrite B5; subst s2; cbn; congruence|].
+    split; [rewrite B2; subst s2; cbn; congruence|]. exists R. reflexivity.
+Qed.
